@@ -12,7 +12,7 @@ use std::collections::BTreeMap;
 
 fn multiset(log: &[(String, String)]) -> BTreeMap<(String, String), usize> {
     let mut m = BTreeMap::new();
-    for k in log {
+    for k in log.iter().filter(|k| !is_twin_key(&k.1)) {
         *m.entry(k.clone()).or_insert(0) += 1;
     }
     m
@@ -140,8 +140,8 @@ pub fn run(ctx: &Ctx) {
          to 2-4 probes (cacheable or not) with failure sets and fail-the-first-n plans, evaluated 1-3 times in a row. Oracle: the cache \
          model (per evaluation; key = function and argument identity; insert on success only; non-cacheable always invoked): the \
          number of invocations per (function, argument) and every outcome value equal the model's; a failing call surfaces as a \
-         user-function error naming the function and carrying the original message. NaN and equal-valued decimals of different scale \
-         are excluded as arguments by construction (the property does not say whether they are the same argument). Non-trivial: \
+         user-function error naming the function and carrying the original message. For arguments that are equal under == yet distinguishable (0.0 / -0.0, d1.0 / d1.00, NaN) only the \
+         observed values are asserted (a cached result must be the one the function gives for exactly that argument), not the counts. Non-trivial: \
          some key is called >= 2 times, or a failure precedes a success for the same key, or >= 2 evaluations.",
     );
     ctx.assume("probe results are a pure function of (function, argument); invocations are observed through the probes' own log");
